@@ -12,7 +12,7 @@ Variable veqb : V -> V -> bool.
 Variable dflt : V.
 Variable Nm : Type.
 Variable nmeqb : Nm -> Nm -> bool.
-Hypothesis veqb_spec : forall a b, veqb a b = true <-> a = b.
+Hypothesis veqb_spec : veq_equiv V veqb.
 
 (* lia generalises over the whole context; keep unrelated section variables out of the proof terms *)
 Ltac zlia := try clear veqb_spec; try clear dflt; try clear nmeqb; try clear veqb; lia.
@@ -174,21 +174,37 @@ Qed.
 (* ---------- distinct ---------- *)
 Notation spec_distinct := (spec_distinct V veqb).
 
-Lemma row_eqb_spec (a b : row) : row_eqb a b = true <-> a = b.
-Proof using veqb_spec.
-  revert b; induction a as [|x a IH]; intros [|y b]; cbn [C03.row_eqb]; split; intros H; try discriminate; try reflexivity.
-  - apply andb_true_iff in H. destruct H as [H1 H2]. apply veqb_spec in H1. apply IH in H2. now subst.
-  - inversion H; subst. apply andb_true_iff. split; [now apply veqb_spec|now apply IH].
-Qed.
-
 Lemma row_eqb_refl (a : row) : row_eqb a a = true.
-Proof using veqb_spec. now apply row_eqb_spec. Qed.
+Proof using veqb_spec.
+  destruct veqb_spec as (R & _ & _). induction a as [|x a IH]; cbn [C03.row_eqb]; [reflexivity|]. now rewrite R, IH.
+Qed.
 
 Lemma row_eqb_sym (a b : row) : row_eqb a b = row_eqb b a.
 Proof using veqb_spec.
-  destruct (row_eqb a b) eqn:E1, (row_eqb b a) eqn:E2; try reflexivity.
-  - apply row_eqb_spec in E1. subst. now rewrite row_eqb_refl in E2.
-  - apply row_eqb_spec in E2. subst. now rewrite row_eqb_refl in E1.
+  destruct veqb_spec as (_ & S & _). revert b; induction a as [|x a IH]; intros [|y b]; cbn [C03.row_eqb]; try reflexivity.
+  now rewrite S, IH.
+Qed.
+
+Lemma row_eqb_trans (a b c : row) : row_eqb a b = true -> row_eqb b c = true -> row_eqb a c = true.
+Proof using veqb_spec.
+  destruct veqb_spec as (_ & _ & T). revert b c; induction a as [|x a IH]; intros [|y b] [|z c]; cbn [C03.row_eqb]; try discriminate; try reflexivity.
+  intros H1 H2. apply andb_true_iff in H1 as [H1 H1']. apply andb_true_iff in H2 as [H2 H2'].
+  apply andb_true_iff. split; [eapply T; eassumption|eapply IH; eassumption].
+Qed.
+
+(* when == is identity (the hypothesis of rounds 1-4), row equality is identity *)
+Lemma row_eqb_spec (Hid : forall a b, veqb a b = true -> a = b) (a b : row) : row_eqb a b = true <-> a = b.
+Proof using veqb_spec.
+  split; [|intros ->; apply row_eqb_refl].
+  revert b; induction a as [|x a IH]; intros [|y b]; cbn [C03.row_eqb]; intros H; try discriminate; try reflexivity.
+  apply andb_true_iff in H. destruct H as [H1 H2]. apply Hid in H1. apply IH in H2. now subst.
+Qed.
+
+Lemma existsb_row_eqb_trans (x y : row) (seen : list row) :
+  row_eqb x y = true -> existsb (row_eqb x) seen = true -> existsb (row_eqb y) seen = true.
+Proof using veqb_spec.
+  intros Exy H. apply existsb_exists in H as (s0 & Hin & Hs). apply existsb_exists. exists s0. split; [exact Hin|].
+  eapply row_eqb_trans; [|exact Hs]. now rewrite row_eqb_sym.
 Qed.
 
 Lemma filter_filter {A : Type} (f g : A -> bool) (l : list A) :
@@ -221,7 +237,7 @@ Proof using veqb_spec key_faithful.
   destruct (existsb (row_eqb x) seen) eqn:E; cbn [negb].
   - rewrite IH, filter_filter. apply filter_ext_in. intros y _.
     unfold unseen. destruct (row_eqb x y) eqn:Exy; cbn [negb andb]; [|reflexivity].
-    apply row_eqb_spec in Exy. subst y. now rewrite E.
+    now rewrite (existsb_row_eqb_trans x y seen Exy E).
   - f_equal. change (key x :: map key seen) with (map key (x :: seen)).
     rewrite IH, filter_filter. apply filter_ext. intros y.
     unfold unseen. cbn [existsb]. rewrite (row_eqb_sym y x).
@@ -253,13 +269,57 @@ Lemma code_query_spec (sc : schema) (b : backing V) (p : row -> bool) :
 Proof. unfold code_query. cbn [back sch]. now rewrite drain_spec. Qed.
 
 (* spec_distinct: what it means *)
-Lemma spec_distinct_In (l : list row) (x : row) : In x (spec_distinct l) <-> In x l.
-Proof using veqb_spec.
+(* every survivor is a row of the input ... *)
+Lemma spec_distinct_sub (l : list row) (x : row) : In x (spec_distinct l) -> In x l.
+Proof.
   induction l as [|y l IH]; cbn [C03.spec_distinct In]; [tauto|].
-  rewrite filter_In, IH. split.
-  - intros [H|[H _]]; auto.
-  - intros [H|H]; [now left|].
-    destruct (row_eqb y x) eqn:E; [apply row_eqb_spec in E; now left|right; split; [exact H|reflexivity]].
+  rewrite filter_In. intros [H|[H _]]; auto.
+Qed.
+
+(* ... every row of the input is equal to a survivor ... *)
+Lemma spec_distinct_represents (l : list row) (x : row) :
+  In x l -> exists y, In y (spec_distinct l) /\ row_eqb y x = true.
+Proof using veqb_spec.
+  induction l as [|y l IH]; cbn [C03.spec_distinct In]; [tauto|]. intros [->|H].
+  - exists x. split; [now left|apply row_eqb_refl].
+  - destruct (IH H) as (z & Hz & Ezx). destruct (row_eqb y z) eqn:E.
+    + exists y. split; [now left|eapply row_eqb_trans; eassumption].
+    + exists z. split; [right; apply filter_In; split; [exact Hz|now rewrite E]|exact Ezx].
+Qed.
+
+(* ... no two survivors are equal ... *)
+Lemma spec_distinct_pairwise (l : list row) : ForallOrdPairs (fun a b => row_eqb a b = false) (spec_distinct l).
+Proof.
+  induction l as [|y l IH]; cbn [C03.spec_distinct]; constructor.
+  - apply Forall_forall. intros z Hz. apply filter_In in Hz as [_ Hz]. now apply negb_true_iff in Hz.
+  - clear -IH. induction IH as [|a t Ha Ht IHt]; cbn [filter]; [constructor|].
+    destruct (negb (row_eqb y a)); [|exact IHt]. constructor; [|exact IHt].
+    apply Forall_forall. intros z Hz. apply filter_In in Hz as [Hz _]. rewrite Forall_forall in Ha. now apply Ha.
+Qed.
+
+(* ... and the survivor of each set of equal rows is its FIRST member itself: a row is kept iff no
+   earlier row of the input is equal to it *)
+Lemma spec_firsts_filter (earlier l : list row) :
+  spec_firsts V veqb earlier l = filter (fun y => negb (existsb (row_eqb y) earlier)) (spec_distinct l).
+Proof using veqb_spec.
+  revert earlier; induction l as [|x r IH]; intros earlier; cbn [C03.spec_firsts C03.spec_distinct filter]; [reflexivity|].
+  assert (E : forall y, negb (existsb (row_eqb y) (earlier ++ [x])) = negb (row_eqb x y) && negb (existsb (row_eqb y) earlier)).
+  { intros y. rewrite existsb_app. cbn [existsb]. rewrite orb_false_r, negb_orb, (row_eqb_sym y x). apply andb_comm. }
+  destruct (existsb (row_eqb x) earlier); cbn [negb]; rewrite IH, filter_filter.
+  - apply filter_ext. intros y. now rewrite E.
+  - f_equal. apply filter_ext. intros y. now rewrite E.
+Qed.
+
+Lemma spec_distinct_firsts (l : list row) : spec_distinct l = spec_firsts V veqb [] l.
+Proof using veqb_spec.
+  rewrite spec_firsts_filter. symmetry. induction (spec_distinct l) as [|x t IH]; cbn [filter existsb negb]; [reflexivity|]. now f_equal.
+Qed.
+
+(* under identity (rounds 1-4): same rows, none twice *)
+Lemma spec_distinct_In (Hid : forall a b, veqb a b = true -> a = b) (l : list row) (x : row) : In x (spec_distinct l) <-> In x l.
+Proof using veqb_spec.
+  split; [apply spec_distinct_sub|]. intros H. destruct (spec_distinct_represents l x H) as (y & Hy & E).
+  apply (row_eqb_spec Hid) in E. now subst.
 Qed.
 
 Lemma spec_distinct_NoDup (l : list row) : NoDup (spec_distinct l).
@@ -851,6 +911,15 @@ Definition pinned_tail (k : Z) (l : list row) : list row := pinned_slice (0 - k)
 
 (* F-C03-4: __iter__ returned iter(self._rows): for a generator that is the generator itself,
    which the length hint's materialize() then empties *)
+(* round-5 seeded change: {row: row for row in rows}.values() - a dict keeps the FIRST key at its
+   position but the LAST value assigned to it *)
+Fixpoint dict_put (d : list (row * row)) (k v : row) : list (row * row) :=
+  match d with
+  | [] => [(k, v)]
+  | (k0, v0) :: t => if row_eqb k0 k then (k0, v) :: t else (k0, v0) :: dict_put t k v
+  end.
+Definition dict_distinct (l : list row) : list row := map snd (fold_left (fun d r => dict_put d r r) l []).
+
 Definition pinned_py_list (f : frame) : frame * list row :=
   match back f with
   | Eager l => (f, l)
